@@ -164,6 +164,41 @@ def check_proxies(rep, stats):
     proxy._dispatcher = disp
 
 
+def check_same_name(rep, stats):
+  """Thrift generates every interface as a class called Iface: distinct interface classes with the same name, in
+  either order, must each get their own proxy (right methods, instance of their own interface)."""
+  import gevent
+  from scales.core import ClientProxyBuilder
+  sets = [['alpha', 'beta'], ['beta', 'gamma_'], ['delta'], ['alpha']]
+  for order in itertools.permutations(range(len(sets)), 3):
+    ClientProxyBuilder._PROXY_TYPE_CACHE.clear()
+    ifaces = [type('Iface', (object,), {n: make_method(n, '(a, b=1)') for n in sets[i]}) for i in order]
+    for k, (iface, i) in enumerate(zip(ifaces, order)):
+      stats['evals'] += 1
+      stats['keys'].add(('same-name', order, k))
+      disp = StubDispatcher()
+      disp.mode = 'value'
+      proxy = ClientProxyBuilder.CreateServiceClient(iface)(disp)
+      case = {'interfaces_named_Iface_with_methods': [sets[j] for j in order], 'proxy_built_for': sets[i]}
+      if not isinstance(proxy, iface):
+        rep.violation('C20.wrong-proxy', 'proxy built for the interface with methods %r is not an instance of it; case %r' % (sets[i], case),
+                      {'same_name': True}, {'case': case})
+        return
+      for name in sets[i]:
+        for attr in (name, name + '_async'):
+          fn = getattr(proxy, attr, None)
+          n0 = len(disp.calls)
+          box = {}
+          if fn is not None:
+            g = gevent.spawn(lambda: box.setdefault('r', fn(1, b=2)))
+            vloop.run_ready()
+          if fn is None or len(disp.calls) != n0 + 1 or disp.calls[-1] != (name, (1,), {'b': 2}):
+            rep.violation('C20.wrong-proxy', 'method %r of the interface with methods %r was not dispatched by its proxy (dispatcher saw %r); case %r'
+                          % (attr, sets[i], disp.calls[n0:], case), {'same_name': True}, {'case': case})
+            return
+  stats['samples'].append({'same_name_interfaces': sets})
+
+
 def check_uris(rep, stats, max_eps):
   from scales.core import ScalesUriParser
   from scales.loadbalancer.serverset import StaticServerSetProvider, ZooKeeperServerSetProvider
@@ -233,6 +268,7 @@ def main(tier, seed):
   rep = Report(PROP, tier, seed, 'exploration')
   stats = {'evals': 0, 'keys': set(), 'samples': []}
   check_proxies(rep, stats)
+  check_same_name(rep, stats)
   check_uris(rep, stats, 3 if tier == 'quick' else 4)
   rep.put('evaluations', stats['evals'])
   rep.put('distinct_nontrivial', len(stats['keys']))
